@@ -1,0 +1,131 @@
+//go:build verif
+
+package main
+
+// Verification hook (build tag "verif" only). cmd/nokv-redis is package main,
+// so the correspondence harness cannot import it; instead it builds this
+// binary with -tags verif and drives it through environment variables:
+//
+//	NOKV_VERIF_MODE=resp      run the parseRESP stdin/stdout protocol below
+//	                          instead of the server, then exit.
+//	NOKV_VERIF_HOTLIMIT=<n>   override Options.WriteHotKeyLimit of the
+//	                          embedded DB opened by main() (0 = no limit).
+//
+// resp protocol: stdin carries frames [u32 big-endian length][bytes]. For each
+// frame parseRESP is called once on a bufio.Reader over exactly those bytes,
+// under recover(), with runtime.MemStats.TotalAlloc read before and after.
+// One JSON line per frame is written to stdout.
+
+import (
+	"bufio"
+	"bytes"
+	"encoding/binary"
+	"encoding/hex"
+	"encoding/json"
+	"errors"
+	"fmt"
+	"io"
+	"os"
+	"runtime"
+	"runtime/debug"
+	"strconv"
+
+	NoKV "github.com/feichai0017/NoKV"
+)
+
+type verifRespOut struct {
+	Class    string    `json:"class"` // ok | err | panic
+	Err      string    `json:"err,omitempty"`
+	IsEOF    bool      `json:"is_eof,omitempty"`
+	IsUEOF   bool      `json:"is_ueof,omitempty"`
+	Nil      bool      `json:"nil"`  // result slice is nil
+	Args     []*string `json:"args"` // hex; null = nil element
+	Consumed int       `json:"consumed"`
+	Alloc    uint64    `json:"alloc"`
+}
+
+func verifParseOnce(in []byte) (out verifRespOut) {
+	src := bytes.NewReader(in)
+	r := bufio.NewReader(src)
+	var m0, m1 runtime.MemStats
+	var args [][]byte
+	var err error
+	panicked := false
+	var pv any
+	runtime.ReadMemStats(&m0)
+	func() {
+		defer func() {
+			if p := recover(); p != nil {
+				panicked = true
+				pv = p
+			}
+		}()
+		args, err = parseRESP(r)
+	}()
+	runtime.ReadMemStats(&m1)
+	out.Alloc = m1.TotalAlloc - m0.TotalAlloc
+	out.Consumed = len(in) - src.Len() - r.Buffered()
+	switch {
+	case panicked:
+		out.Class = "panic"
+		out.Err = fmt.Sprint(pv)
+	case err != nil:
+		out.Class = "err"
+		out.Err = err.Error()
+		out.IsEOF = errors.Is(err, io.EOF)
+		out.IsUEOF = errors.Is(err, io.ErrUnexpectedEOF)
+	default:
+		out.Class = "ok"
+		out.Nil = args == nil
+		out.Args = make([]*string, len(args))
+		for i, a := range args {
+			if a != nil {
+				s := hex.EncodeToString(a)
+				out.Args[i] = &s
+			}
+		}
+	}
+	return out
+}
+
+func verifRespLoop() {
+	if v := os.Getenv("NOKV_VERIF_MEMLIMIT"); v != "" {
+		if n, err := strconv.ParseInt(v, 10, 64); err == nil {
+			debug.SetMemoryLimit(n)
+		}
+	}
+	in := bufio.NewReaderSize(os.Stdin, 1<<20)
+	w := bufio.NewWriterSize(os.Stdout, 1<<20)
+	enc := json.NewEncoder(w)
+	var hdr [4]byte
+	for {
+		if _, err := io.ReadFull(in, hdr[:]); err != nil {
+			break
+		}
+		buf := make([]byte, binary.BigEndian.Uint32(hdr[:]))
+		if _, err := io.ReadFull(in, buf); err != nil {
+			break
+		}
+		res := verifParseOnce(buf)
+		_ = enc.Encode(res)
+		_ = w.Flush()
+		runtime.GC()
+	}
+	_ = w.Flush()
+}
+
+func init() {
+	if os.Getenv("NOKV_VERIF_MODE") == "resp" {
+		verifRespLoop()
+		os.Exit(0)
+	}
+	if hot := os.Getenv("NOKV_VERIF_HOTLIMIT"); hot != "" {
+		if n, err := strconv.Atoi(hot); err == nil {
+			newDefaultOptions = func() *NoKV.Options {
+				o := NoKV.NewDefaultOptions()
+				o.WriteHotKeyLimit = int32(n)
+				return o
+			}
+		}
+	}
+}
